@@ -218,4 +218,8 @@ example : ∃ bs, CodecNX.encNxPacketIn nxpiExample = some bs ∧ CodecNX.decNxP
           have := nxExample_match; simp only [nxpiExample] at hmb; rw [this] at hmb; exact (Option.some.inj hmb).symm
         subst h1; decide)
 
+/-- non-vacuity of `C01F.codec_message_wf` / `C01F.codec_stream_framing` (Properties/C01Framing.lean): the port-mod example
+    record is such a message — type 15 is registered to a class the translator reads -/
+theorem codec_message_nonvacuous : messages.lookup 15 = some "ofp_port_mod" ∧ (cls "ofp_port_mod").isSome = true := by decide
+
 end Pox.C01
